@@ -515,3 +515,27 @@ def make_oracle_c05():
                              replay_doc(ctx, run, what=what), key=key)
                 return
     return orc
+
+
+def oracle_session(ck, ctx, run):
+    """per step of a session (objects re-used across runs) and for write faults: the file ends as the last
+    accepted version of THAT run; a rejected original / check-only run writes nothing"""
+    if run.exc in ("CapHit", "Hang"):
+        return
+    want = last_accepted(ctx, run)
+    if run.final != want:
+        ck.violation(f"{ctx['strategy']} on a re-used object / after a fault: final file {run.final!r} is not the last "
+                     f"accepted version {want!r} (exc={run.exc})", replay_doc(ctx, run, session=ctx.get("session"),
+                                                                            write_fault=ctx.get("write_fault")))
+        return
+    if run.exc is None and run.seen:
+        first = run.seen[0][2]
+        if (first == "N" or ctx["strategy"] == "check-only") and run.writes:
+            ck.violation(f"{ctx['strategy']} on a re-used object: {run.writes} write(s) to the testcase file although "
+                         f"the original was rejected / check-only", replay_doc(ctx, run, session=ctx.get("session")))
+            return
+    if run.exc is not None:
+        inter = [(int(n.split("-")[0]), b) for n, b, _ in run.temp if n.endswith("-interesting")]
+        if inter and any(a == "Y" for _, _, a in run.seen) and max(inter)[1] != want:
+            ck.violation(f"after an abort on a re-used object the highest-numbered interesting copy {max(inter)[1]!r} "
+                         f"is not the last accepted version {want!r}", replay_doc(ctx, run, session=ctx.get("session")))
